@@ -119,7 +119,7 @@ class CanStaticSchema: public ICanSchema {
         return "unkn";
     }
 
-    StaticSchema static_schema_;
+    ::fcp::StaticSchema static_schema_;
 };
 
 }
